@@ -1,6 +1,5 @@
 """X01 (b): binding of WinFile.tla to wannierberri.w90files.win.WIN - rendering of the specification's token files to text,
 tokenising of the text the real writer produces, projection of the real dictionary onto the specification's values."""
-import os
 import re
 import warnings
 import numpy as np
@@ -127,6 +126,8 @@ def project_val(key, x):
         if x.shape[1] == 3:
             return mk("frac", e, q=q)
         raise Unrepresentable(f"{key}: array of shape {x.shape}")
+    if isinstance(x, np.ndarray) and x.ndim != 1:
+        raise Unrepresentable(f"{key}: array of shape {x.shape}")
     if isinstance(x, (list, tuple, np.ndarray)):
         xs = list(x)
         if all(isinstance(y, str) for y in xs):
@@ -153,6 +154,9 @@ def project_data(w, seeds):
     out = {}
     for k, x in w.data.items():
         if k == "seedname":
+            if x is None:
+                out[k] = VNONE
+                continue
             if isinstance(x, str):
                 s = spaced(x)
                 name = seeds.get(x) or (seeds.get(_unspace(x, seeds)) if s is not None else None)
